@@ -863,3 +863,30 @@ func init() {
 		},
 	})
 }
+
+func init() {
+	inst := abortInstance{
+		id: "C10-l", min: 2, anchor: "pkg/ref.GetRef",
+		doc: "A ref whose previous value could not be read is not treated as new: in the functions that gate ref updates (scope of C10-a) a failure of the old-value getter (ref.GetRef / GetHead / GetRemoteRef …) other than ref.ErrKeyNotFound ends the operation with an error on every path — it is never answered by carrying on with a nil previous value, which is exactly the value that skips the ancestor / force / tag gate. A call whose value is discarded (an existence probe that only decides whether a name is looked at by the gated loop at all) carries no obligation.",
+		scope: func(p *Program) []*ssa.Function {
+			c, err := newC10(p)
+			if err != nil {
+				return nil
+			}
+			return c.scope()
+		},
+		callees: func(p *Program) (map[*types.Func]bool, error) {
+			c, err := newC10(p)
+			if err != nil {
+				return nil, err
+			}
+			return c.oldGetters, nil
+		},
+		sentinels:     [][2]string{{"pkg/ref", "ErrKeyNotFound"}},
+		valueUsedOnly: true,
+	}
+	register(&Rule{
+		ID: inst.id, Template: "T5-strong (a failure aborts)", Doc: inst.doc, Min: inst.min,
+		Run: func(p *Program, r *RuleResult) error { return runAbortInstance(p, r, inst) },
+	})
+}
